@@ -1,5 +1,5 @@
 (* C33 — proofs of the lemmas that Props/C33_props.v closes with `exact`. *)
-From PV Require Import Bytes C39 C39_proofs C33.
+From PV Require Import Bytes C39 C39_proofs C33_gen C33.
 From Coq Require Import ZArith List Bool Lia.
 Import ListNotations.
 Open Scope Z_scope.
@@ -21,9 +21,14 @@ Proof. destruct b1, b2, b3, b4, b5; vm_compute; repeat split. Qed.
 
 Lemma flags_b_sum b1 b2 b3 b4 b5 :
   flags_b b1 b2 b3 b4 b5 =
-  (if b1 then 1 else 0) + (if b2 then 2 else 0) + (if b3 then 4 else 0) + (if b4 then 8 else 0) +
-  (if b5 then 2147483648 else 0).
+  (if b1 then FLAG_SIZE else 0) + (if b2 then FLAG_UIDGID else 0) + (if b3 then FLAG_PERMISSIONS else 0) +
+  (if b4 then FLAG_AMTIME else 0) + (if b5 then FLAG_EXTENDED else 0).
 Proof. destruct b1, b2, b3, b4, b5; reflexivity. Qed.
+
+(* the generated constants are the five distinct bits of the SFTP draft *)
+Lemma flag_values :
+  FLAG_SIZE = 1 /\ FLAG_UIDGID = 2 /\ FLAG_PERMISSIONS = 4 /\ FLAG_AMTIME = 8 /\ FLAG_EXTENDED = 2147483648.
+Proof. repeat split; reflexivity. Qed.
 
 Lemma flags_has a :
   has (flags_of a) FLAG_SIZE = is_some (a_size a) /\
@@ -35,11 +40,11 @@ Proof. unfold flags_of. apply flags_b_has. Qed.
 
 Lemma flags_exact a :
   flags_of a =
-  (if is_some (a_size a) then 1 else 0) +
-  (if is_some (a_uid a) && is_some (a_gid a) then 2 else 0) +
-  (if is_some (a_mode a) then 4 else 0) +
-  (if is_some (a_atime a) && is_some (a_mtime a) then 8 else 0) +
-  (if nonempty (a_ext a) then 2147483648 else 0).
+  (if is_some (a_size a) then FLAG_SIZE else 0) +
+  (if is_some (a_uid a) && is_some (a_gid a) then FLAG_UIDGID else 0) +
+  (if is_some (a_mode a) then FLAG_PERMISSIONS else 0) +
+  (if is_some (a_atime a) && is_some (a_mtime a) then FLAG_AMTIME else 0) +
+  (if nonempty (a_ext a) then FLAG_EXTENDED else 0).
 Proof. unfold flags_of. apply flags_b_sum. Qed.
 
 (* ------------------------------------------------------------------ *)
@@ -134,15 +139,18 @@ Proof.
   - rewrite IH; [reflexivity|]. intros Hi. apply Hn. right. exact Hi.
 Qed.
 
-Lemma enc_pairs_len l : forall e, enc_pairs l = Ok e -> (length l <= length e)%nat.
+Lemma enc_pairs_len8 l : forall e, enc_pairs l = Ok e -> (8 * length l <= length e)%nat.
 Proof.
   induction l as [|[k v] r IH]; intros e He.
   - cbn. lia.
   - cbn [enc_pairs] in He.
     bind_inv He x Ex. bind_inv He y Ey. bind_inv He z Ez. injection He as <-.
-    apply add_string_ok in Ex as [_ ->].
-    specialize (IH z eq_refl). rewrite !app_length, be_encode_length. cbn [length]. lia.
+    apply add_string_ok in Ex as [_ ->]. apply add_string_ok in Ey as [_ ->].
+    specialize (IH z eq_refl). rewrite !app_length, !be_encode_length. cbn [length]. lia.
 Qed.
+
+Lemma enc_pairs_len l : forall e, enc_pairs l = Ok e -> (length l <= length e)%nat.
+Proof. intros e He. pose proof (enc_pairs_len8 l e He). lia. Qed.
 
 Lemma ext_loop_at l : forall d pre e rest buf,
   enc_pairs l = Ok e -> buf = pre ++ e ++ rest -> NoDup (map fst (d ++ l)) ->
@@ -167,10 +175,10 @@ Proof.
     + rewrite <- app_assoc. exact Hnd.
 Qed.
 
-Lemma dec_ext_at fl a s buf pre rest :
+Lemma dec_ext_at b fl a s buf pre rest :
   has fl FLAG_EXTENDED = nonempty (a_ext a) -> enc_ext fl a = Ok s ->
   NoDup (map fst (a_ext a)) -> buf = pre ++ s ++ rest ->
-  dec_ext false fl buf (length pre) = (a_ext a, length (pre ++ s)).
+  dec_ext b false fl buf (length pre) = Ok (a_ext a, length (pre ++ s)).
 Proof.
   intros Hf He Hnd Hb. unfold enc_ext, dec_ext in *. rewrite Hf in *.
   destruct (a_ext a) as [|kv l] eqn:El; cbn [nonempty] in *.
@@ -179,8 +187,18 @@ Proof.
     bind_inv He c Ec. bind_inv He e Ee. injection He as <-.
     rewrite (get_int_at' buf _ c pre (e ++ rest) Ec)
       by (rewrite Hb, <- !app_assoc; reflexivity).
+    pose proof (enc_pairs_len8 _ _ Ee) as Hl8.
+    assert (Hrem : skipn (length (pre ++ c)) buf = e ++ rest).
+    { rewrite Hb. replace (pre ++ (c ++ e) ++ rest) with ((pre ++ c) ++ e ++ rest)
+        by (rewrite <- !app_assoc; reflexivity).
+      apply skipn_app_exact. }
+    assert (Hguard : b && (Z.of_nat (length (a_ext a)) >? Z.of_nat (length (skipn (length (pre ++ c)) buf)) / 8)
+                     = false).
+    { rewrite Hrem, app_length. apply andb_false_intro2.
+      rewrite Z.gtb_ltb. apply Z.ltb_ge. apply Z.div_le_lower_bound; lia. }
+    rewrite Hguard.
     assert (Hfuel : ext_fuel (Z.of_nat (length (a_ext a))) buf = length (a_ext a)).
-    { unfold ext_fuel. pose proof (enc_pairs_len _ _ Ee) as Hl.
+    { unfold ext_fuel.
       assert (Hbl : (length e <= length buf)%nat) by (rewrite Hb, !app_length; lia).
       rewrite Z.min_l by lia. apply Nat2Z.id. }
     rewrite Hfuel.
@@ -196,7 +214,7 @@ Qed.
 
 Lemma roundtrip_gen a bs pre rest :
   NoDup (map fst (a_ext a)) -> pack a = Ok bs ->
-  unpack (pre ++ bs ++ rest) (length pre) = (flags_of a, normalize a, (length pre + length bs)%nat).
+  unpack (pre ++ bs ++ rest) (length pre) = Ok (flags_of a, normalize a, (length pre + length bs)%nat).
 Proof.
   intros Hnd Hp. unfold pack, pack_with in Hp.
   bind_inv Hp h Eh. bind_inv Hp s1 E1. bind_inv Hp s2 E2. bind_inv Hp s3 E3.
@@ -217,14 +235,14 @@ Proof.
   rewrite (dec_pair_at opt_time fl FLAG_AMTIME (a_atime a) (a_mtime a) s4 buf ((((pre ++ h) ++ s1) ++ s2) ++ s3)
              (s5 ++ rest) (fun v => eq_refl) F4 E4)
     by (rewrite Hb, <- !app_assoc; reflexivity).
-  rewrite (dec_ext_at fl a s5 buf (((((pre ++ h) ++ s1) ++ s2) ++ s3) ++ s4) rest F5 E5 Hnd)
+  rewrite (dec_ext_at G_COUNT_BOUNDED fl a s5 buf (((((pre ++ h) ++ s1) ++ s2) ++ s3) ++ s4) rest F5 E5 Hnd)
     by (rewrite Hb, <- !app_assoc; reflexivity).
-  unfold normalize. f_equal. rewrite !app_length. lia.
+  unfold normalize. do 2 f_equal. rewrite !app_length. lia.
 Qed.
 
 Lemma roundtrip a bs rest :
   NoDup (map fst (a_ext a)) -> pack a = Ok bs ->
-  unpack (bs ++ rest) 0 = (flags_of a, normalize a, length bs).
+  unpack (bs ++ rest) 0 = Ok (flags_of a, normalize a, length bs).
 Proof. intros Hnd Hp. exact (roundtrip_gen a bs [] rest Hnd Hp). Qed.
 
 Lemma normalize_paired a : paired a = true -> normalize a = a.
@@ -235,7 +253,7 @@ Qed.
 
 Lemma roundtrip_paired a bs rest :
   paired a = true -> NoDup (map fst (a_ext a)) -> pack a = Ok bs ->
-  unpack (bs ++ rest) 0 = (flags_of a, a, length bs).
+  unpack (bs ++ rest) 0 = Ok (flags_of a, a, length bs).
 Proof. intros Hp Hnd He. rewrite (roundtrip a bs rest Hnd He), (normalize_paired a Hp). reflexivity. Qed.
 
 (* fields absent stay absent; an id or time without its partner decodes as absent *)
@@ -349,15 +367,16 @@ Proof. intros p1 p2 a. split; reflexivity. Qed.
 (* so the round trip holds for an object with any history: decoded or encoded before, then edited *)
 Lemma roundtrip_any_history prior a bs rest :
   NoDup (map fst (a_ext a)) -> fst (pack_obj prior a) = Ok bs ->
-  unpack (bs ++ rest) 0 = (snd (pack_obj prior a), normalize a, length bs).
+  unpack (bs ++ rest) 0 = Ok (snd (pack_obj prior a), normalize a, length bs).
 Proof. intros Hnd Hp. exact (roundtrip a bs rest Hnd Hp). Qed.
 
 (* decode, replace the fields by any others, encode, decode: the second decode yields the new fields *)
-Lemma decode_edit_encode buf pos a' bs rest :
+Lemma decode_edit_encode buf pos fl a p a' bs rest :
+  unpack buf pos = Ok (fl, a, p) ->
   NoDup (map fst (a_ext a')) ->
-  fst (pack_obj (fst (fst (unpack buf pos))) a') = Ok bs ->
-  unpack (bs ++ rest) 0 = (flags_of a', normalize a', length bs).
-Proof. intros Hnd Hp. exact (roundtrip a' bs rest Hnd Hp). Qed.
+  fst (pack_obj fl a') = Ok bs ->
+  unpack (bs ++ rest) 0 = Ok (flags_of a', normalize a', length bs).
+Proof. intros _ Hnd Hp. exact (roundtrip a' bs rest Hnd Hp). Qed.
 
 (* without the reset the prior flags leak: a stale extended flag on an object with no fields is
    written out (flags 0x80000000 and a zero count instead of flags 0), and a stale time flag makes
@@ -375,13 +394,35 @@ Qed.
 
 (* the code before the repair swaps key and value of an extended pair *)
 Lemma v0_swaps :
-  exists a bs, pack a = Ok bs /\ NoDup (map fst (a_ext a)) /\ paired a = true /\
-    snd (fst (unpack_v0 bs 0)) <> a /\
-    a_ext (snd (fst (unpack_v0 bs 0))) = map (fun kv => (snd kv, fst kv)) (a_ext a).
+  exists a bs a', pack a = Ok bs /\ NoDup (map fst (a_ext a)) /\ paired a = true /\
+    unpack_v0 bs 0 = Ok (flags_of a, a', length bs) /\ a' <> a /\
+    a_ext a' = map (fun kv => (snd kv, fst kv)) (a_ext a).
 Proof.
   exists (MkAttrs None None None None None None [([107; 49], [118; 49])]).
-  eexists. split; [vm_compute; reflexivity|].
+  eexists. eexists. split; [vm_compute; reflexivity|].
   split; [cbn; constructor; [intros []|constructor]|].
   split; [reflexivity|].
-  split; [vm_compute; discriminate|vm_compute; reflexivity].
+  split; [vm_compute; reflexivity|].
+  split; [discriminate|reflexivity].
+Qed.
+
+(* the count guard: a pair count the message cannot hold is refused before the loop runs
+   (holds for the model of the guarded code, whatever the working tree contains) *)
+Lemma count_guard buf pos :
+  let '(fl, p0) := get_int buf pos in
+  let '(_, p1) := dec_size fl buf p0 in
+  let '(_, _, p2) := dec_pair fl FLAG_UIDGID buf p1 in
+  let '(_, p3) := dec_mode fl buf p2 in
+  let '(_, _, p4) := dec_pair fl FLAG_AMTIME buf p3 in
+  has fl FLAG_EXTENDED = true ->
+  fst (get_int buf p4) > Z.of_nat (length (skipn (snd (get_int buf p4)) buf)) / 8 ->
+  unpack_gen true false buf pos = Raise SSHExc.
+Proof.
+  unfold unpack_gen.
+  destruct (get_int buf pos) as [fl p0]. destruct (dec_size fl buf p0) as [sz p1].
+  destruct (dec_pair fl FLAG_UIDGID buf p1) as [[u g] p2]. destruct (dec_mode fl buf p2) as [md p3].
+  destruct (dec_pair fl FLAG_AMTIME buf p3) as [[at_ mt] p4].
+  intros Hext Hgt. unfold dec_ext. rewrite Hext.
+  destruct (get_int buf p4) as [count q]. cbn [fst snd] in Hgt.
+  apply Z.gt_lt in Hgt. apply Z.gtb_lt in Hgt. cbn [andb]. rewrite Hgt. reflexivity.
 Qed.
